@@ -101,7 +101,7 @@ func streamShapes(b *reclib.Builder) []reclib.History {
 	}
 	// both tracks start together although the audio timestamps are ahead: the first sample the
 	// recorder can write is an audio one, the video units it holds at that moment are older
-	for _, skew := range []time.Duration{50 * ms, 150 * ms, 300 * ms} {
+	for _, skew := range []time.Duration{50 * ms, 120 * ms, 280 * ms} {
 		out = append(out, shape(b, 100*ms, skew, 0))
 	}
 	return out
